@@ -454,6 +454,15 @@ def make_machine(tier, hooks):
                       'variant': variant, 'pairs': pairs, 'name': name, 'add_prefix': add_prefix, 'x': x,
                       'on': on, 'og': og, 'oo': oo, 'rep_ok': rep <= 1})
 
+        @rule(c=I, j=I, from_pool=st.booleans(), right=st.booleans(), pairs=st.lists(st.tuples(I, I).map(list), min_size=1, max_size=2),
+              which=I, name=NAMES, add_prefix=st.booleans(), on=I, og=st.lists(st.tuples(I, I, I).map(list), min_size=1, max_size=4),
+              oo=st.lists(I, max_size=2), variant=st.sampled_from(['connect_circuit', 'connect_circuit', 'extend_explicit']))
+        def connect_repeated_pair(self, c, j, from_pool, right, pairs, which, name, add_prefix, on, og, oo, variant):
+            # one connector pair listed twice, connectors taken among all gates of the side that allows it
+            self._do({'op': 'connect', 'c': c, 'j': j, 'from_pool': from_pool, 'right': right, 'internal': True,
+                      'variant': variant, 'pairs': pairs + [pairs[which % len(pairs)]], 'name': name, 'add_prefix': add_prefix,
+                      'x': 0, 'on': on, 'og': og, 'oo': oo, 'rep_ok': True})
+
         @rule(c=I, roots=st.lists(I, min_size=1, max_size=2), grow=st.lists(I, max_size=4),
               form=st.sampled_from(['dnf', 'rm', 'chain']), label_mode=st.sampled_from(['fresh', 'same_boundary']),
               drop=st.integers(0, 9), seed=I)
